@@ -124,6 +124,68 @@ impl C04 {
                     return;
                 }
             }
+            // (b2) rival container: the attacker signs and presents an account of the right type that names the
+            // attacker as authority (a config of their own, a sibling adaptive fee tier of the same config and
+            // tick spacing, the extension of their own config) while the pool-side accounts stay the victim's
+            {
+                const TIED: &[&str] = &["whirlpool", "fee_tier", "adaptive_fee_tier", "whirlpools_config_extension", "token_badge"];
+                let mut rivals: Vec<(&str, Pubkey, Account)> = Vec::new();
+                let cfg_slot = if c.idx("whirlpools_config").is_some() { "whirlpools_config" } else { "config" };
+                if matches!(*slot, "fee_authority" | "collect_protocol_fees_authority" | "reward_emissions_super_authority") && TIED.iter().any(|t| c.idx(t).is_some()) {
+                    if let Some(a) = c.idx(cfg_slot).and_then(|ci| v.pre.get(&v.ix.accounts[ci].pubkey)) {
+                        if a.data.len() == 108 {
+                            let mut d = (*a.data).clone();
+                            for o in [8usize, 40, 72] {
+                                d[o..o + 32].copy_from_slice(attacker.as_ref());
+                            }
+                            rivals.push((cfg_slot, scratch_key(salt, 4003), Account::new(a.lamports, d, a.owner)));
+                        }
+                    }
+                }
+                if matches!(*slot, "delegated_fee_authority" | "initialize_pool_authority") {
+                    if let Some(a) = c.idx("adaptive_fee_tier").and_then(|ci| v.pre.get(&v.ix.accounts[ci].pubkey)) {
+                        if let Some(t) = decode::adaptive_fee_tier(&a.data) {
+                            let mut idx2 = t.fee_tier_index ^ 0x0400;
+                            while v.pre.exists(&ix::pda_fee_tier(&t.config, idx2)) {
+                                idx2 = idx2.wrapping_add(1);
+                            }
+                            let mut d = (*a.data).clone();
+                            d[40..42].copy_from_slice(&idx2.to_le_bytes());
+                            d[44..76].copy_from_slice(attacker.as_ref());
+                            d[76..108].copy_from_slice(attacker.as_ref());
+                            rivals.push(("adaptive_fee_tier", ix::pda_fee_tier(&t.config, idx2), Account::new(a.lamports, d, a.owner)));
+                        }
+                    }
+                }
+                if matches!(*slot, "token_badge_authority" | "config_extension_authority") {
+                    if let Some(a) = c.idx("whirlpools_config_extension").and_then(|ci| v.pre.get(&v.ix.accounts[ci].pubkey)) {
+                        if a.data.len() >= 104 {
+                            let rival_cfg = scratch_key(salt, 4003);
+                            let mut d = (*a.data).clone();
+                            d[8..40].copy_from_slice(rival_cfg.as_ref());
+                            d[40..72].copy_from_slice(attacker.as_ref());
+                            d[72..104].copy_from_slice(attacker.as_ref());
+                            rivals.push(("whirlpools_config_extension", ix::pda_config_extension(&rival_cfg), Account::new(a.lamports, d, a.owner)));
+                        }
+                    }
+                }
+                for (kslot, rkey, racct) in rivals {
+                    let Some(ki) = c.idx(kslot) else { continue };
+                    let mut f = base.clone();
+                    f.put(rkey, racct);
+                    let mut ixn = v.ix.clone();
+                    ixn.accounts[i].pubkey = attacker;
+                    ixn.accounts[i].is_signer = true;
+                    ixn.accounts[ki].pubkey = rkey;
+                    let r = exec(&f, ixn);
+                    cov.eval(format!("{}|{}|rival_{}", name, slot, kslot));
+                    self.cell(format!("{} / {} / rival {} naming the attacker", name, slot, kslot), !r.ok);
+                    if r.ok {
+                        out.push(v04("rival_container_accepted", idx, format!("{}: succeeded for a stranger who signed as `{}` and presented their own `{}` account naming them as authority", name, slot, kslot)));
+                        return;
+                    }
+                }
+            }
             // position / bundle authorities: delegate and empty-account variants
             let ta_slot = match *slot {
                 "position_authority" => "position_token_account",
@@ -179,6 +241,39 @@ impl C04 {
                 if r.ok {
                     out.push(v04("empty_token_account_accepted", idx, format!("{}: succeeded for the owner of a token account holding 0 position tokens", name)));
                     return;
+                }
+                // (e) the attacker's account claims 1 position token but is not owned by a token program:
+                // a stranger program, and look-alikes of the two token programs (same leading and trailing bytes)
+                let mut forgers = vec![scratch_key(salt, 4004)];
+                for p in [ix::tok(), ix::tok22()] {
+                    let mut b = p.to_bytes();
+                    b[15] ^= 0x5a;
+                    forgers.push(Pubkey::new_from_array(b));
+                }
+                for (fi, forger) in forgers.iter().enumerate() {
+                    let mut f = base.clone();
+                    let len = v.pre.data(&ta_key).map(|d| d.len()).unwrap_or(165).max(165);
+                    let mut d = vec![0u8; len];
+                    d[0..32].copy_from_slice(t.mint.as_ref());
+                    d[32..64].copy_from_slice(attacker.as_ref());
+                    d[64..72].copy_from_slice(&1u64.to_le_bytes());
+                    d[108] = 1;
+                    if len > 165 {
+                        d[165] = 2; // account type byte of Token-2022 accounts
+                    }
+                    f.put(fake, Account::new(world::rent_min(len), d, *forger));
+                    let mut ixn = v.ix.clone();
+                    ixn.accounts[i].pubkey = attacker;
+                    ixn.accounts[i].is_signer = true;
+                    ixn.accounts[ti].pubkey = fake;
+                    let r = exec(&f, ixn);
+                    let label = if fi == 0 { "stranger program" } else { "look-alike of a token program" };
+                    cov.eval(format!("{}|{}|forged_token_account{}", name, slot, fi));
+                    self.cell(format!("{} / {} / forged token account owned by {}", name, slot, label), !r.ok);
+                    if r.ok {
+                        out.push(v04("forged_token_account_accepted", idx, format!("{}: succeeded for a forged position token account owned by a {} ({})", name, label, forger)));
+                        return;
+                    }
                 }
             }
         }
